@@ -201,10 +201,15 @@ contract(T + ".add_agent", "C06", options={"opaque_ctor": ["BioAgent"]}, raises=
          ensures={"one-more-voter-with-the-given-weight": "len(self.colony) == len(old(self).colony) + 1 and result.weight == weight and "
                                                           "self.colony[len(self.colony) - 1] is result"})
 contract(T + ".set_agent_weight", "C06", raises=[],
-         loops={"for profile in self.colony": {"invariant": ["True"]}},
+         loops={"for profile in self.colony": {"invariant": ["True"],
+                                               "step": {"only-the-named-voter-is-reweighted": "implies(_exit == 'return', profile.agent.name == name and profile.weight == weight) and "
+                                                                                              "implies(_exit != 'return', profile.agent.name != name)"},
+                                               "property_level": ["only-the-named-voter-is-reweighted"]}},
          ensures={"electorate-unchanged": "len(self.colony) == len(old(self).colony)"})
 contract(T + ".remove_agent", "C06", raises=[], modifies=["self.colony"],
-         loops={"for (i, profile) in enumerate(self.colony)": {"invariant": ["len(self.colony) == len(old(self).colony)"]}},
+         loops={"for (i, profile) in enumerate(self.colony)": {"invariant": ["len(self.colony) == len(old(self).colony)"],
+                                                               "step": {"only-the-named-voter-is-removed": "(_exit == 'return') == (profile.agent.name == name)"},
+                                                               "property_level": ["only-the-named-voter-is-removed"]}},
          ensures={"removes-at-most-one-voter": "len(self.colony) == len(old(self).colony) - (1 if result else 0)"})
 
 # "(including the emergency quorum)": the emergency front end is the THRESHOLD strategy with the caller's emergency threshold and a one-voter minimum
